@@ -58,4 +58,64 @@ instance (b name : Bytes) : Decidable (ValidElf b name) :=
     ⟨fun ⟨a, b, c, d, e, f, g, h, i, j, k, l, m⟩ => ⟨a, b, c, d, e, f, g, h, i, j, k, l, m⟩,
      fun ⟨a, b, c, d, e, f, g, h, i, j, k, l, m⟩ => ⟨a, b, c, d, e, f, g, h, i, j, k, l, m⟩⟩
 
+/-- `align(x, m)` of `exe_utils.rs` where it does not fail -/
+def alignUp (x m : Nat) : Nat := ((x - 1) / m + 1) * m
+
+/-! ### PE: the parsed view -/
+def pSig (b : Bytes) : Nat := leVal (slice b 0x3c 4)
+def pFh (b : Bytes) : Nat := pSig b + 4
+def pNum (b : Bytes) : Nat := leVal (slice b (pFh b + 2) 2)
+def pOptSize (b : Bytes) : Nat := leVal (slice b (pFh b + 16) 2)
+def pOpt (b : Bytes) : Nat := pFh b + 20
+def pSecAlign (b : Bytes) : Nat := leVal (slice b (pOpt b + 32) 4)
+def pFileAlign (b : Bytes) : Nat := leVal (slice b (pOpt b + 36) 4)
+def pHdrs (b : Bytes) : Nat := pOpt b + pOptSize b
+def pEnd (b : Bytes) : Nat := pHdrs b + pNum b * 40
+def pGap (b : Bytes) : Nat := alignUp (pEnd b) (pFileAlign b) - pEnd b
+def pBump (b : Bytes) : Nat := if pGap b < 40 then alignUp (40 - pGap b) (pFileAlign b) else 0
+def pPrevVa (b : Bytes) : Nat := leVal (slice b (pHdrs b + (pNum b - 1) * 40 + 12) 4)
+def pPrevVs (b : Bytes) : Nat := leVal (slice b (pHdrs b + (pNum b - 1) * 40 + 8) 4)
+
+/-- the 8-byte name field that starts at `h` reads as something other than `name` -/
+def NameNe (b name : Bytes) (h : Nat) : Prop :=
+  match readStringLoop b h 8 9 0 with
+  | .ok r => slice b h r ≠ name
+  | _ => False
+
+instance (b name : Bytes) (h : Nat) : Decidable (NameNe b name h) := by
+  unfold NameNe; split <;> infer_instance
+
+/-- **The PE layouts `add_section_to_pe` is meant for**, as an explicit decidable predicate: the signature offset points behind the DOS
+header at the `PE\\0\\0` signature; at least one section and room for one more; an optional header of at least 64 bytes; non-zero
+alignments; the aligned end of the section table lies inside the file; sizes, addresses and the moved raw pointers stay below 2^32;
+no section has the new name; the new name has no NUL and at most 8 bytes; the payload is not empty. -/
+structure ValidPe (b name payload : Bytes) : Prop where
+  hsig0 : 0x40 ≤ pSig b
+  hsig : leVal (slice b (pSig b) 4) = 0x00004550
+  hnum1 : 1 ≤ pNum b
+  hnum : pNum b + 1 < U16
+  hopt : 64 ≤ pOptSize b
+  hfa : 1 ≤ pFileAlign b
+  hsa : 1 ≤ pSecAlign b
+  hend : pEnd b + pGap b ≤ b.length
+  hsize : b.length + pBump b + payload.length + 3 * pFileAlign b < U32
+  hva : pPrevVa b + pPrevVs b + 2 * pSecAlign b + 2 < U32
+  hva1 : 1 ≤ pPrevVa b + pPrevVs b
+  hptr : ∀ i, i < pNum b → leVal (slice b (pHdrs b + i * 40 + 20) 4) + pBump b < U32
+  hnames : ∀ i, i < pNum b → NameNe b name (pHdrs b + i * 40)
+  hname0 : ∀ c, c ∈ name → c ≠ 0
+  hnamelen : name.length ≤ 8
+  hpl : 1 ≤ payload.length
+
+
+instance (b name payload : Bytes) : Decidable (ValidPe b name payload) :=
+  decidable_of_iff
+    (0x40 ≤ pSig b ∧ leVal (slice b (pSig b) 4) = 0x00004550 ∧ 1 ≤ pNum b ∧ pNum b + 1 < U16 ∧ 64 ≤ pOptSize b ∧
+     1 ≤ pFileAlign b ∧ 1 ≤ pSecAlign b ∧ pEnd b + pGap b ≤ b.length ∧
+     b.length + pBump b + payload.length + 3 * pFileAlign b < U32 ∧ pPrevVa b + pPrevVs b + 2 * pSecAlign b + 2 < U32 ∧
+     1 ≤ pPrevVa b + pPrevVs b ∧ (∀ i, i < pNum b → leVal (slice b (pHdrs b + i * 40 + 20) 4) + pBump b < U32) ∧
+     (∀ i, i < pNum b → NameNe b name (pHdrs b + i * 40)) ∧ (∀ c, c ∈ name → c ≠ 0) ∧ name.length ≤ 8 ∧ 1 ≤ payload.length)
+    ⟨fun ⟨a, b, c, d, e, f, g, h, i, j, k, l, m, n, o, p⟩ => ⟨a, b, c, d, e, f, g, h, i, j, k, l, m, n, o, p⟩,
+     fun ⟨a, b, c, d, e, f, g, h, i, j, k, l, m, n, o, p⟩ => ⟨a, b, c, d, e, f, g, h, i, j, k, l, m, n, o, p⟩⟩
+
 end Rj.Exe
